@@ -231,12 +231,13 @@ where
 }
 
 fn pick_order(r: &mut Rng, p: &Params) -> usize {
-    let max = p.usize("max_order", 65);
+    let max = p.usize("max_order", 129);
     let n = match r.below(20) {
         0 => 1,
         1 => 2,
         2..=13 => r.range(2, 17),
         14..=16 => *r.pick(&[31usize, 32, 33]),
+        17 => *r.pick(&[127usize, 128, 129]),
         _ => *r.pick(&[63usize, 64, 65]),
     };
     n.min(max)
